@@ -926,9 +926,15 @@ func (m *monitor) migration(h historySpec) {
 		case len(got.Vals) == len(e.Vals):
 			cls = "order-or-value-differs"
 		}
-		bad[cls] = append(bad[cls], entryKind(n))
+		// the poison symmetric key has its own (known) cause: keep it apart from the other kinds
+		group := ""
+		if n == ksdump.PoisonSym || n == ksdump.PoisonSyms {
+			group = "|poison-sym"
+		}
+		bad[cls+group] = append(bad[cls+group], entryKind(n))
 	}
-	for cls, kinds := range bad {
+	for key, kinds := range bad {
+		cls := strings.TrimSuffix(key, "|poison-sym")
 		m.violate(format, h, "all", "empty", fmt.Sprintf("migrated-key-not-identical(%s:%s)", cls, joinKinds(kinds)), detail)
 	}
 	r.SampleN("migration", 2, map[string]interface{}{"what": "migration compared", "history": h.String(), "error": fmt.Sprint(err)})
